@@ -46,7 +46,7 @@ func TestC18(t *testing.T) {
 					bal := before[from.String()].AmountOf(sdk.DefaultStakeDenom)
 					spendable := bal.Sub(sdk.NewInt(chain.DefaultFee))
 					var to sdk.Address
-					toKind := rapid.SampledFrom([]string{"existing", "existing", "new", "self", "module"}).Draw(rt, "toKind")
+					toKind := rapid.SampledFrom([]string{"existing", "existing", "new", "self", "module", "oddLength"}).Draw(rt, "toKind")
 					switch toKind {
 					case "existing":
 						to = chain.Addr(funded[rapid.IntRange(0, len(funded)-1).Draw(rt, "to")])
@@ -57,6 +57,9 @@ func TestC18(t *testing.T) {
 						c.NonTrivial()
 					case "self":
 						to = from
+					case "oddLength":
+						to = chain.OddAddress(rapid.IntRange(0, 7).Draw(rt, "odd"))
+						c.Label("odd-length-recipient")
 					default:
 						to = modules[rapid.IntRange(0, len(modules)-1).Draw(rt, "module")]
 						c.Label("module-recipient")
